@@ -133,8 +133,9 @@ def install_run_once():
     import panqec.simulation as sim
     orig = ds.run_once
 
-    def run_once(code, error_model, decoder, error_rate, rng=None):
-        r = orig(code, error_model, decoder, error_rate, rng=rng)
+    def run_once(*a, **kw):
+        r = orig(*a, **kw)
+        code = a[0] if a else kw['code']
         try:
             n = code.n
             H = gf2.pack_rows(code.stabilizer_matrix)
